@@ -35,6 +35,9 @@ def gen_aperture(r, boundary=False):
         val = r.choice([30.0, 45.0, 90.0, -60.0, r.uniform(-180.0, 180.0)]) * (60.0 if unit == 'arcmin' else 1.0)
         p['theta_q'] = [val, unit]
         p['theta'] = float((val * (u.arcmin if unit == 'arcmin' else u.deg)).to(u.radian).value)
+    if not kind.startswith('circ') and r.random() < 0.15:
+        # the aperture is first built with another orientation, its cached geometry is read, and theta is then re-assigned
+        p['via_setter'] = True
     return kind, p
 
 
@@ -48,6 +51,13 @@ def make_aperture(kind, p):
         from astropy.coordinates import Angle
         val, unit = p['theta_q']
         th = Angle(val, 'deg') if unit == 'angle-deg' else val * (u.arcmin if unit == 'arcmin' else u.deg)
+    if p.get('via_setter'):
+        q0 = {k_: v_ for k_, v_ in p.items() if k_ not in ('via_setter', 'theta_q')}
+        q0['theta'] = p['theta'] + 0.7
+        ap = make_aperture(kind, q0)
+        _ = (ap.bbox, ap._centered_edges, ap.to_mask(method='center'))
+        ap.theta = th
+        return ap
     if kind == 'circ':
         return CircularAperture(pos, s)
     if kind == 'circann':
